@@ -136,7 +136,9 @@ def run(tier, seed, replay=None):
     ]
     if not C.proof_layer(res, PID, THEORY):
         return res.finish()
-    cases = D.parse_replay(replay) if replay else gen_cases(seed, tier)
+    from . import c15
+    cases = D.parse_replay(replay) if replay else gen_cases(seed, tier) + \
+        c15.tree_cases(random.Random(seed + 3), [4, 9, 40, 300] if tier == "quick" else [4, 9, 9, 40, 40, 300, 300, 1500], prefix="tr")
     rm = D.run_cases(res, cases, seed)
     if rm is None:
         return res.finish()
@@ -147,6 +149,19 @@ def run(tier, seed, replay=None):
         m = M.get(c["id"], [])
         bad = None
         n = len(c["entries"])
+        if c.get("refsort") or (c.get("sort") and c["sort"][0] == "parent"):
+            # sorted on a key that is a reference to entries of the same store: the order is not predicted; the store as
+            # read must be in non-decreasing key order (and every reference must designate its target)
+            rl = D.canon_rust(r)
+            bad = "creation failed: %s" % (r[:2],) if "create OK" not in r else c15.refsort_oracle(c, rl, None)
+            if bad:
+                res.violation("C03: %s (case %s)" % (bad, c["id"]), D.case_text(c, seed) + "# " + bad + "\n")
+            if [l for l in D.canon_model(m) if l.startswith("entry")] != [l for l in rl if l.startswith("entry")]:
+                dis += 1
+                if not bad:
+                    res.violation("independent decoder disagrees with the reader on %s" % c["id"], D.case_text(c, seed), found_input=False)
+            nontrivial.add((c["id"], n, "refsort"))
+            continue
         order = sorted(range(n), key=lambda i: D.sort_key(c, c["entries"][i]))
         exp = D.expected_dump(c, order=order)
         if "create OK" not in r:
